@@ -31,6 +31,7 @@ import (
 
 	"github.com/labstack/echo/v4"
 	"github.com/lestrrat-go/jwx/v2/jwk"
+	"github.com/lestrrat-go/jwx/v2/jws"
 	"github.com/nuts-foundation/go-did/did"
 	"github.com/nuts-foundation/nuts-node/audit"
 	"github.com/nuts-foundation/nuts-node/core"
@@ -176,6 +177,31 @@ func TestVerifC03(t *testing.T) {
 	statuses := map[string]int{}
 	nReq := 0
 	privateJwkAccepted := 0
+	wrongKey := 0
+	var wrongKeyExamples []string
+	// a 200 token for kid K must verify with the public key published for K and with no other key of the store
+	checkToken := func(kid, tok string) {
+		msg, err := jws.Parse([]byte(tok))
+		if err != nil || len(msg.Signatures()) != 1 {
+			return // detached tokens parse too; anything else is not a compact JWS
+		}
+		if strings.Contains(tok, "..") {
+			return // detached payload: cannot be verified without the payload
+		}
+		alg := msg.Signatures()[0].ProtectedHeaders().Algorithm()
+		var ok []string
+		for k, pk := range res.keys {
+			if _, err := jws.Verify([]byte(tok), jws.WithKey(alg, pk)); err == nil {
+				ok = append(ok, k)
+			}
+		}
+		if len(ok) != 1 || ok[0] != kid || msg.Signatures()[0].ProtectedHeaders().KeyID() != kid {
+			wrongKey++
+			if len(wrongKeyExamples) < 3 {
+				wrongKeyExamples = append(wrongKeyExamples, fmt.Sprintf("requested kid %q, header kid %q, verifies with %v", kid, msg.Signatures()[0].ProtectedHeaders().KeyID(), ok))
+			}
+		}
+	}
 	var tokens []string
 	call := func(path string, body interface{}) (int, string) {
 		var raw []byte
@@ -249,9 +275,11 @@ func TestVerifC03(t *testing.T) {
 	for i := 0; i < n; i++ {
 		switch r.Intn(9) {
 		case 0, 1:
-			code, body := call("sign_jwt", map[string]interface{}{"kid": anyKid(), "claims": map[string]interface{}{"iss": "me", "n": i}})
+			kid := anyKid()
+			code, body := call("sign_jwt", map[string]interface{}{"kid": kid, "claims": map[string]interface{}{"iss": "me", "n": i}})
 			if code == 200 {
 				tokens = append(tokens, body)
+				checkToken(kid, body)
 			}
 		case 2, 3, 4:
 			h := hdrs()
@@ -260,9 +288,11 @@ func TestVerifC03(t *testing.T) {
 			if hasJwk {
 				_, priv = h["jwk"].(map[string]interface{})["d"]
 			}
-			code, body := call("sign_jws", map[string]interface{}{"kid": anyKid(), "headers": h, "payload": []byte("payload"), "detached": r.Intn(3) == 0})
+			kid := anyKid()
+			code, body := call("sign_jws", map[string]interface{}{"kid": kid, "headers": h, "payload": []byte("payload"), "detached": r.Intn(3) == 0})
 			if code == 200 {
 				tokens = append(tokens, body)
+				checkToken(kid, body)
 				if priv {
 					privateJwkAccepted++
 				}
@@ -313,7 +343,8 @@ func TestVerifC03(t *testing.T) {
 	control := len(canaries) > 0 && strings.Contains("xx"+canaries[0].val+"yy", canaries[0].val)
 	result := map[string]interface{}{"exploration": true, "keys": len(ents), "canaries": len(canaries), "requests": nReq, "statuses": statuses,
 		"bytes_scanned": total, "sinks": sizes, "hits": hits, "scanner_positive_control": control,
-		"sign_jws_200_with_private_jwk_object": privateJwkAccepted, "tokens_issued": len(tokens)}
+		"sign_jws_200_with_private_jwk_object": privateJwkAccepted, "tokens_issued": len(tokens),
+		"tokens_not_bound_to_requested_kid": wrongKey, "tokens_not_bound_examples": wrongKeyExamples}
 	b, _ := json.MarshalIndent(result, "", " ")
 	if err := os.WriteFile(filepath.Join(out, "api_canary.json"), b, 0o644); err != nil {
 		t.Fatal(err)
